@@ -6,7 +6,8 @@ server reported.
 case     : `stack=tlcp|dtlcp kind=full|script|hist suite=<hex> pol=<Policy> [pol2=<Policy> cfg2=..] cli=<scenario>`
            then per connection K ∈ {1,2} the client's behaviour as seen on the wire and the verdicts
            of the real path validation under the server's configuration:
-           `K.e=0|1 K.msg=0|1 K.n=<certs> K.parse=0|1 K.c0=<okClient okClientOrServer okAny keyOK|-> K.c1=..
+           `K.e=0|1 K.msg=0|1 K.n=<certs> K.parse=0|1 K.c0=<okClient okClientOrServer okAny keyKind|-> K.c1=..
+            (keyKind: s = SM2, p = elliptic curve other than SM2, r = RSA, x = anything else)
             K.kx=0|1 K.cv=none|<byLeafKey overTranscript> K.fin=0|1 [K.sig=0|1]`
            and for histories `now0= now1=` (the certificates of connection 1 judged under the
            configuration of connection 2)
@@ -22,13 +23,17 @@ open Gotlcp.Spec.ServerAuthn Gotlcp.Model.ServerAuthn
 
 def bit (c : Char) : Bool := c == '1'
 
+def parseKind (c : Char) : Option KeyKind :=
+  if c == 's' then some .sm2 else if c == 'p' then some .ecOther else if c == 'r' then some .rsa
+  else if c == 'x' then some .other else none
+
 def parseCert (s : String) : Option Cert :=
   match s.toList with
-  | [a, b, c, d] => some ⟨bit a, bit b, bit c, bit d⟩
+  | [a, b, c, d] => (parseKind d).map (fun k => ⟨bit a, bit b, bit c, k⟩)
   | _ => none
 
 /-- a certificate nothing is known about (beyond index 1, or unparseable) -/
-def filler : Cert := ⟨false, false, false, true⟩
+def filler : Cert := ⟨false, false, false, .sm2⟩
 
 def mkCerts (n : Nat) (c0 c1 : Option Cert) : List Cert :=
   match n with
@@ -107,7 +112,7 @@ def stageNote (k : String) (stage : Stage) (ob : ConnObs) : String :=
 
 def sigCheck (c : ConnCase) : Option (String × String) :=
   match c.sig, c.b.cv with
-  | some s, some v => if s != v.valid then
+  | some s, some _ => if s != c.b.pop then
       some ("harness", "the scenario's CertificateVerify description disagrees with the independent signature check") else none
   | _, _ => none
 
